@@ -51,14 +51,26 @@ fn mix(mut x: u64) -> u64 {
 /// elements inside groups of equal length, then records the final order.
 pub fn order_ties<X>(f: &mut [X], sym: impl Fn(&X) -> usize, len: impl Fn(&X) -> u32) {
     let mode = TIE.with(|t| t.borrow().clone());
+    // Sort only inside maximal runs of adjacent equal lengths: the order of the lengths
+    // themselves is the caller's and is never repaired here.
+    fn runs<X, K: Ord>(f: &mut [X], len: &impl Fn(&X) -> u32, key: impl Fn(&X) -> K) {
+        let mut s = 0;
+        while s < f.len() {
+            let mut e = s + 1;
+            while e < f.len() && len(&f[e]) == len(&f[s]) {
+                e += 1;
+            }
+            f[s..e].sort_by_key(|x| key(x));
+            s = e;
+        }
+    }
     match mode {
         TieMode::Natural => {}
-        TieMode::Asc => f.sort_by_key(|x| (len(x), sym(x))),
-        TieMode::Desc => f.sort_by_key(|x| (len(x), usize::MAX - sym(x))),
-        TieMode::Seed(s) => f.sort_by_key(|x| (len(x), mix(s ^ mix(sym(x) as u64)), sym(x))),
-        TieMode::Order(o) => f.sort_by_key(|x| {
-            let p = o.iter().position(|&y| y == sym(x)).unwrap_or(usize::MAX);
-            (len(x), p, sym(x))
+        TieMode::Asc => runs(f, &len, |x| sym(x)),
+        TieMode::Desc => runs(f, &len, |x| usize::MAX - sym(x)),
+        TieMode::Seed(s) => runs(f, &len, |x| (mix(s ^ mix(sym(x) as u64)), sym(x))),
+        TieMode::Order(o) => runs(f, &len, |x| {
+            (o.iter().position(|&y| y == sym(x)).unwrap_or(usize::MAX), sym(x))
         }),
     }
     LAST.with(|l| l.borrow_mut().push(f.iter().map(|x| (sym(x), len(x))).collect()));
